@@ -526,6 +526,12 @@ func (fx *FuncCtx) callStatic(st *State, callee *types.Func, call *ast.CallExpr)
 			for _, a := range call.Args {
 				fx.eval(st, a)
 			}
+			if callee.Name() == "Wait" && fx.goDepth == 0 {
+				fx.outstanding = nil
+			}
+			if (callee.Name() == "Lock" || callee.Name() == "RLock") && fx.goDepth > 0 {
+				fx.unsupportedf("mutex inside a goroutine: lock order is a schedule (result may depend on it)")
+			}
 			return TupleV{}
 		}
 		fx.unsupportedf("sync.%s", callee.Name())
@@ -907,6 +913,11 @@ func (fx *FuncCtx) execGo(st *State, x *ast.GoStmt) Flow {
 	if !ok {
 		fx.unsupportedf("go statement without function literal")
 	}
+	if fx.con == nil || fx.inlineDepth != 0 || len(fx.con.GoFootprint) == 0 {
+		// Without a declared footprint nothing is known about what runs concurrently
+		// with the rest of the function: the fork-join argument (A7) does not apply.
+		fx.unsupportedf("go statement without a go-footprint clause in the contract (%s)", shortPos(fx.pos(x)))
+	}
 	if fx.con != nil && fx.inlineDepth == 0 && (len(fx.con.GoFootprint) > 0 || len(fx.con.GoRequires) > 0) {
 		// bind the goroutine's parameters to the actual arguments for the footprint clauses
 		sig := fx.info.Types[lit].Type.(*types.Signature)
@@ -933,6 +944,8 @@ func (fx *FuncCtx) execGo(st *State, x *ast.GoStmt) Flow {
 			saved := fx.famOverride
 			fx.famOverride = fp
 			defer func() { fx.famOverride = saved }()
+			// until the join, the parent must stay out of the footprints of running goroutines
+			fx.outstanding = append(fx.outstanding, fp...)
 		}
 	}
 	fx.goDepth++
